@@ -88,9 +88,17 @@ SHAPES = ['one', 'multi', 'compound', 'decorated', 'want', 'string', 'decoclass'
           'compound_comment', 'multi_comment', 'compound_comment_last', 'multi_blank', 'triple_blank', 'compound_blank']
 
 
+# every spelling of the marker that the directive pattern accepts (it is matched case-insensitively)
+MARKERS = ['xdoctest', 'xdoctest', 'xdoctest', 'xdoc', 'doctest', 'XDOCTEST', 'XDoctest', 'DOCTEST', 'XDOC', 'Xdoc', 'DocTest']
+
+
+def marker(k, dirs):
+    return MARKERS[(k * 7 + len(dirs) + sum(len(dir_text(d)) for d in dirs)) % len(MARKERS)]
+
+
 def render_stmt(shape, k, dirs):
     """returns (lines, want_lines); the inline directive comment goes on the first or last line"""
-    c = ('  # xdoctest: ' + ', '.join(dir_text(d) for d in dirs)) if dirs else ''
+    c = ('  # %s: ' % marker(k, dirs) + ', '.join(dir_text(d) for d in dirs)) if dirs else ''
     if shape == 'one':
         return ['>>> v%d = t(%d)%s' % (k, k, c)], []
     if shape == 'multi':
@@ -131,9 +139,9 @@ def render_stmt(shape, k, dirs):
 def render(events, shapes):
     lines = []
     j = 0
-    for ev in events:
+    for n, ev in enumerate(events):
         if ev[0] == 'block':
-            lines.append('>>> # xdoctest: ' + ', '.join(dir_text(d) for d in ev[1]))
+            lines.append('>>> # %s: ' % marker(n, ev[1]) + ', '.join(dir_text(d) for d in ev[1]))
         else:
             src, want = render_stmt(shapes[j % len(shapes)], ev[2], ev[1])
             j += 1
